@@ -3,6 +3,7 @@ import TxVerif.Tie.Order
 import TxVerif.Tie.Layout
 import TxVerif.Props.C01Engine
 import TxVerif.Props.C01EngineDfn
+import TxVerif.Tie.Fixes
 open TxVerif
 #print axioms safe_step
 #print axioms safe_run
@@ -62,3 +63,6 @@ open TxVerif
 #print axioms engine_history_is_runHistoryO
 #print axioms engine_clear_writes_any_order
 #print axioms c01B0_ok
+#print axioms Tie.fix_rollbackChanges
+#print axioms Tie.fix_syncNewMeta
+#print axioms Tie.fix_restoreMeta
